@@ -6,6 +6,7 @@ import (
 	"context"
 	"fmt"
 	"sync"
+	"sync/atomic"
 	"testing"
 	"time"
 
@@ -341,7 +342,16 @@ func c06Early(c c06Case, o *Outcome) *Outcome {
 	var mu sync.Mutex
 	var seen *pb.Message
 	decoded := make(chan struct{})
+	var released atomic.Bool
 	svc := &Service{UnaryRaw: func(ctx context.Context, dec func(interface{}) error, _ grpc.UnaryServerInterceptor) (interface{}, error) {
+		if !released.Load() {
+			// the later, ordinary call on the same channel (the abandoned one is still parked before its handler)
+			in := c06Make(MsgSpec{}, c.DynSrv)
+			if err := dec(in); err != nil {
+				return nil, err
+			}
+			return c06Make(c.Resps[0], c.DynSrv), nil
+		}
 		defer close(decoded)
 		in := c06Make(c.Prefill, c.DynSrv)
 		if err := dec(in); err != nil {
@@ -386,6 +396,20 @@ func c06Early(c c06Case, o *Outcome) *Outcome {
 	// ... and so is the response object: e.g. a retry has meanwhile put its own reply there
 	respMarker := MsgSpec{Raw: []byte("REPLY-OF-THE-RETRY"), Count: -78}
 	c06Overwrite(resp, respMarker)
+	// ... and the channel is used again, with another request of the same type (the abandoned handler is
+	// still parked: nothing of this second call may reach it)
+	second := c06Make(MsgSpec{Raw: []byte("SECOND-REQUEST"), Count: -79}, c.DynCli)
+	secondDone := make(chan struct{})
+	go func() {
+		defer close(secondDone)
+		ch.Invoke(context.Background(), mUnary, second, c06Make(MsgSpec{}, c.DynCli))
+	}()
+	select {
+	case <-secondDone:
+	case <-time.After(stallBound):
+		return o.failf("a second call on the same channel did not return while the abandoned one was parked")
+	}
+	released.Store(true)
 	close(gate.release)
 	select {
 	case <-decoded:
